@@ -122,13 +122,14 @@ def load_specs():
                                        ('V_BLK_OK', ['C06'], 'the heap buffer of %s is an outstanding block of exactly capacity elements' % x)]:
                     cur.clauses.append((tg, lab, '__CPROVER_ensures(%s(%s))' % (macro, x)))
                 pending = None
-            elif line.startswith('@GROW('):
+            elif line.startswith('@GROW(') or line.startswith('@GROW_E('):
                 x = line[line.index('(') + 1:line.rindex(')')]
+                first = ('__CPROVER_ensures(((uint64_t)(%s) > V_LIMIT) == (l0_exc == V_LIMIT_EXC))' % x) if line.startswith('@GROW(') else \
+                        ('__CPROVER_ensures((l0_exc != V_LIMIT_EXC || (uint64_t)(%s) > V_LIMIT) && ((uint64_t)(%s) <= V_LIMIT || l0_exc == V_LIMIT_EXC || l0_exc == L0_EXC_ELEM))' % (x, x))
                 for tg, lab, txt in [
-                    (['C08'], 'a capacity-limit error is raised exactly when the resulting size exceeds the limit (N, or the maximum of the size_type)',
-                     '__CPROVER_ensures(((uint64_t)(%s) > V_LIMIT) == (l0_exc == V_LIMIT_EXC))' % x),
+                    (['C08'], 'a capacity-limit error is raised exactly when the resulting size exceeds the limit (N, or the maximum of the size_type)', first),
                     (['C08'], 'after a capacity-limit error contents, size, capacity, storage and all counters are exactly as before',
-                     '__CPROVER_ensures(l0_exc != V_LIMIT_EXC || V_UNTOUCHED)'),
+                     '__CPROVER_ensures(l0_exc != V_LIMIT_EXC || V_UNTOUCHED)' if line.startswith('@GROW(') else '__CPROVER_ensures(l0_exc != V_LIMIT_EXC || V_UNTOUCHED_BUT_TEMP)'),
                     (['C07'], 'no reallocation when the result fits the capacity', '__CPROVER_ensures((uint64_t)(%s) > pre_self.capa || V_NO_REALLOC)' % x),
                     (['C07'], 'capacity never decreases and size <= capacity <= max_size', '__CPROVER_ensures(V_CAPA(self) >= pre_self.capa && V_SIZE(self) <= V_CAPA(self) && V_CAPA(self) <= V_LIMIT)'),
                     (['C18', 'C06'], 'growth is geometric: exactly one allocator request, capacity max(1.5*old, needed) clamped to the size_type',
@@ -253,7 +254,7 @@ def build_unit_text(unit, xdir, specs, report):
     head.append('#ifndef KF_EXCLUDE\n#define KF_EXCLUDE 1\n#endif')
     head.append('#include "l0.h"')
     head.append('#include "inv.h"')
-    head.append('uint64_t g_N; struct vsnap pre_self, pre_o; struct gsnap pre_g; _Bool g_alias; uint64_t g_src, g_pos, g_pos2;')
+    head.append('uint64_t g_N; struct vsnap pre_self, pre_o; struct gsnap pre_g; _Bool g_alias; uint64_t g_src, g_pos, g_pos2, g_cnt;')
     nhead = sum(h.count('\n') + 1 for h in head)
     body = '\n'.join(head) + '\n' + text + '\n#include "l0_globals.c"\n' + 'void harness(void) {\n%s\n  l0_havoc();\n  %s\n}\n' % (decls, call)
     cmap2 = {ln + nhead: v for ln, v in cmap.items() if ln != 'ordinals'}
